@@ -114,3 +114,32 @@ def write_json(path: str, obj):
     with open(tmp, "w") as f:
         json.dump(obj, f, indent=1, default=str)
     os.replace(tmp, path)
+
+
+class Renamed:
+    """Checker view that prefixes rule-instance names (used when a property
+    re-evaluates clauses that are numbered under another property)."""
+
+    def __init__(self, ck: Checker, prefix: str):
+        self._ck = ck
+        self._p = prefix
+        self.prop = ck.prop
+        self.an = ck.an
+
+    def ok(self, rule, name, *a, **k):
+        return self._ck.ok(rule, self._p + name, *a, **k)
+
+    def fail(self, rule, name, *a, **k):
+        return self._ck.fail(rule, self._p + name, *a, **k)
+
+    def check(self, cond, rule, name, *a, **k):
+        return self._ck.check(cond, rule, self._p + name, *a, **k)
+
+    def exempt(self, *a, **k):
+        return self._ck.exempt(*a, **k)
+
+    def floor(self, *a, **k):
+        return self._ck.floor(*a, **k)
+
+    def note(self, s):
+        return self._ck.note(s)
